@@ -358,7 +358,7 @@ PROP = Property(
           "distinct = label set x kind set."),
     strategy=strategy,
     run_case=run_case,
-    budgets={"quick": 8000, "thorough": 120000},
+    budgets={"quick": 8000, "thorough": 240000},
     extra_tiers=[("live", live_tier)],
     assumptions=[
         "for access mode 3 any mode string is accepted (the call must not fail)",
